@@ -1,4 +1,5 @@
 import RainModel.Lemmas.LoopWeak
+import RainModel.Lemmas.LoopPersist
 /-!
 C05 — crash-consistent resume, loop level (M-LOOP).  `persisted` is the bitfield last written to the
 resume database (on stop, on completion, after verification, by the periodic writer `Op.persist`).
@@ -11,9 +12,18 @@ resume database (on stop, on completion, after verification, by the periodic wri
 * `missing_not_trusted`: when the allocator reports missing files, nothing of the old bitfield survives:
   every bit set afterwards is justified by the disk (model of the code after the fix of finding C05-F1).
 
+Across external deletions/restorations of files (`Op.mutate`): for histories **without a verify command**
+the record is bitwise below the in-memory bitfield (`persisted_below_bitfield`), hence stale only inside
+missing files (`persisted_weakly_sound`), hence never trusted by a restart for a piece that is not on disk
+(`crash_safe_with_mutations`).  With a verify command this is **false** in the model over arbitrary states
+(`stale_record_after_verify_while_stopping`, a `decide` witness): `forgetBitfield` does nothing when the
+in-memory bitfield is nil, and a pending verify makes it nil before the allocator finds the files missing.
+
 Not covered (said plainly): the residual window named in finding C05-F1 (a crash after the allocator
-re-created a file but before its result is handled — the model's allocator is atomic), and the resume
-bitfield across external deletions when the in-memory bitfield is nil (see notes/loop-proofs.md).
+re-created a file but before its result is handled — the model's allocator is atomic), and histories with
+verify commands and file mutations (see notes/loop-proofs.md: the witness needs a tracker that hangs on a
+torrent whose allocation failed, which the driver never produces, so whether a *driver-reachable* history
+violates the property is open; the Go-level sequence is described there).
 -/
 namespace Rain.Props.C05
 open Rain.Loop
@@ -56,6 +66,54 @@ theorem missing_forgets (m : M) (b : List Bool) (hb : m.1.bf = some b) :
   unfold hadForget
   simp [hb]
 
+/-- **persisted_below_bitfield.** Every event except the verify command (external file changes included),
+in every state without a pending verify: the resume bitfield stays bitwise below the in-memory bitfield —
+it is written from it (stop, completion, verification, periodic writer) and dropped with it
+(`forgetBitfield`, the dropped allocation of `stop`). -/
+theorem persisted_below_bitfield (s : St) (p : Parked) (kn : Nat → Bool) (op : Op) (hop : op.isVerify = false)
+    (h : PBehind s) : PBehind (step s p kn op).1.st := step_pb s p kn op hop h
+
+/-- **persisted_weakly_sound.** From a freshly added torrent (no verify pending), after any history with
+files deleted or restored behind the client's back (no corruption of bytes, no verify command), any choices
+of the implementation adopted: a bit of the resume bitfield whose piece is not fine on disk is bad only
+inside files that are currently missing. -/
+theorem persisted_weakly_sound (s0 : St) (h0 : InitLike s0) (hdv : s0.doVerify = false) (evs : List Ev)
+    (hop : ∀ e ∈ evs, e.op.isCorrupt = false) (hv : ∀ e ∈ evs, e.op.isVerify = false) :
+    WSP (drun (s0, none) evs).1 :=
+  WSP.of_pb (drun_wsound evs (s0, none) hop h0.wsound).ws
+    (drun_pb evs (s0, none) hv ⟨hdv, fun i hi => by rw [h0.persisted] at hi; cases hi⟩)
+
+/-- `restartTrusts` looks at the record only when every data file is present. -/
+theorem restartTrusts_files (s : St) (i : Nat) (hi : bitOf (restartTrusts s) i = true) :
+    FilesExist s ∧ bitOf s.persisted i = true := by
+  unfold restartTrusts at hi
+  split at hi
+  · next hall =>
+    refine ⟨fun f hf hpad => ?_, hi⟩
+    have := List.all_eq_true.1 hall f (List.mem_range.2 hf)
+    have hpad' : s.cfg.fpads[f]?.getD false = false := by simpa using hpad
+    simpa [hpad'] using this
+  · cases hi
+
+/-- **crash_safe_with_mutations.** `crash_safe` for histories in which files are also deleted and restored
+behind the stopped client's back (no verify command): at every crash instant, a piece the restart would
+treat as downloaded — it trusts the record only when no file is missing — has its verified bytes on disk. -/
+theorem crash_safe_with_mutations (s0 : St) (h0 : InitLike s0) (hdv : s0.doVerify = false) (evs : List Ev)
+    (hop : ∀ e ∈ evs, e.op.isCorrupt = false) (hv : ∀ e ∈ evs, e.op.isVerify = false)
+    (n i : Nat) (hi : bitOf (restartTrusts (drun (s0, none) (evs.take n)).1) i = true) :
+    (drun (s0, none) (evs.take n)).1.diskOKi i = true := by
+  have hw := persisted_weakly_sound s0 h0 hdv (evs.take n) (fun e he => hop e (List.mem_of_mem_take he))
+    (fun e he => hv e (List.mem_of_mem_take he))
+  have hb := (drun_wsound (evs.take n) (s0, none) (fun e he => hop e (List.mem_of_mem_take he)) h0.wsound).bad
+  obtain ⟨hfe, hp⟩ := restartTrusts_files _ i hi
+  exact hw.sound_of_files hb hfe i hp
+
+/-- The model of `forgetBitfield`'s early return: with no in-memory bitfield the record is left alone. -/
+theorem forget_skipped_when_nil (m : M) (hb : m.1.bf = none) :
+    (hadForget m true).1.persisted = m.1.persisted := by
+  unfold hadForget
+  simp [hb]
+
 /-! Non-vacuity of `crash_safe`: after a completed download the resume bitfield is set and trusted. -/
 section Example
 private def c1 : Cfg :=
@@ -70,6 +128,44 @@ private def evs1 : List Ev := [
   ⟨.msg 1 (.piece 0 0 16384 true), kn [1], [], []⟩]
 
 example : restartTrusts (drun (s1, none) evs1).1 = some [true] := by decide
+
+/-! Non-vacuity of `crash_safe_with_mutations`: stop, the file is deleted — the record still says `[true]`
+but a restart would not trust it (`restartTrusts = none`); after the next start has handled the missing
+file the record is gone (`forgetBitfield`). -/
+private def evsDel : List Ev := evs1 ++ [⟨.stop, kn [1], [], []⟩, ⟨.mutate none .delete, kn [1], [], []⟩]
+example : (drun (s1, none) evsDel).1.persisted = some [true] ∧ (drun (s1, none) evsDel).1.diskOK = [false] ∧
+    restartTrusts (drun (s1, none) evsDel).1 = none := by decide
+example : (drun (s1, none) (evsDel ++ [⟨.start, kn [1], [], []⟩])).1.persisted = none ∧
+    (drun (s1, none) (evsDel ++ [⟨.start, kn [1], [], []⟩])).1.bf = some [false] ∧
+    (drun (s1, none) (evsDel ++ [⟨.start, kn [1], [], []⟩])).1.status = .downloading := by decide
+
+/-! **Why the verify command is excluded** (`stale_record_after_verify_while_stopping`).  The download
+completes, the torrent is stopped, its file is deleted, the storage is made to fail (`failOpen`).  From here
+the state is continued with `stopHang := true` (set by hand: the driver sets `stopHang` only while the
+acceptor runs, which is not the case at the next stop — this state is *not* driver-reachable).  `start`: the
+allocation fails, `stop(err)` — the torrent is `Stopping`, still with its bitfield `[true]`, file missing.
+`verify` arrives while stopping: `Torrent.Verify()` deletes the record, `doVerify := true`, `stop` is a
+no-op.  The periodic writer stores the bitfield again (`persist`: it is not nil).  The storage recovers, the
+stop completes (`waitstop`): `handleStopped` sees `doVerify`, drops the bitfield and restarts; the allocator
+finds the file missing and re-creates it; `forgetBitfield` returns early because the bitfield is nil; nothing
+existed, so a fresh bitfield is installed and the torrent downloads.  The record still says `[true]`, every
+file exists, a restart trusts it: piece 0 would be treated as downloaded although its bytes are not on disk. -/
+private def evsA : List Ev := evsDel ++ [⟨.gate .failOpen true, kn [1], [], []⟩]
+private def midHang : St × Parked := ({ (drun (s1, none) evsA).1 with stopHang := true }, (drun (s1, none) evsA).2)
+private def evsB : List Ev := [
+  ⟨.start, kn [1], [], []⟩,
+  ⟨.verify, kn [1], [], []⟩,
+  ⟨.persist, kn [1], [], []⟩,
+  ⟨.gate .failOpen false, kn [1], [], []⟩,
+  ⟨.waitstop, kn [1], [], []⟩]
+
+theorem stale_record_after_verify_while_stopping :
+    (drun (s1, none) evsA).1.status = .stopped ∧
+    (drun midHang (evsB.take 1)).1.status = .stopping ∧ (drun midHang (evsB.take 1)).1.bf = some [true] ∧
+    (drun midHang evsB).1.status = .downloading ∧ (drun midHang evsB).1.bf = some [false] ∧
+    (drun midHang evsB).1.fileExists = [true] ∧ (drun midHang evsB).1.diskOK = [false] ∧
+    (drun midHang evsB).1.panicked = none ∧
+    restartTrusts (drun midHang evsB).1 = some [true] := by decide
 end Example
 
 end Rain.Props.C05
